@@ -4,6 +4,7 @@ One case = one call of esutil.stat.histogram / Binner.dohist(rev=True) on the sa
 compiled engine (esutil.stat.util.have_chist = True) and with the pure-python engine (False).
 Floats travel as hex literals; the Coq side recomputes every bin number bit-exactly (PrimFloat).
 """
+import json
 import math
 import warnings
 
@@ -225,9 +226,11 @@ def _forms(r, c, force=None):
     c["container"] = cont
     if cont == "ndarray":
         c["view"] = f["view"] if "view" in f else r.choice([None, "strided", "reversed", "readonly", "strided"])
-    c["limform"] = f["limform"] if "limform" in f else r.choice([None, "np"])
-    c["specform"] = f["specform"] if "specform" in f else r.choice([None, "np"])
+    c["limform"] = f["limform"] if "limform" in f else r.choice([None, "np", "np32"])
+    c["specform"] = f["specform"] if "specform" in f else r.choice([None, "np", "np32"])
     c["explicit"] = f["explicit"] if "explicit" in f else (r.random() < 0.4)
+    if not c["explicit"] and r.random() < 0.3:
+        c["mergelast"] = False
     c["api"] = f.get("api") or r.choice(APIS)
     if c["api"] in ("weights", "binner_w"):
         c["wpat"] = f.get("wpat") or r.choice(["ones", "mod3"])
@@ -256,6 +259,106 @@ def _long(r, n, kind, cut=None):
     if r.random() < 0.5:
         c["container"], c["view"] = "ndarray", r.choice(["strided", "reversed", "readonly"])
     return c
+
+
+def _variant(r, d):
+    """other contents for the same object: same length, same first and last element, same minimum and
+    maximum (what a lazily keyed cache would look at), different interior"""
+    d2 = list(d)
+    if len(d2) > 3:
+        mid = d2[1:-1]
+        r.shuffle(mid)
+        d2[1:-1] = mid
+    lo, hi = min(d), max(d)
+    for _ in range(3):
+        if len(d2) > 2:
+            i = r.randrange(1, len(d2) - 1)
+            if d2[i] not in (lo, hi):
+                d2[i] = r.choice(d)
+    if lo not in d2 or hi not in d2:
+        return list(d)[::-1] if len(d) > 1 and d[0] == d[-1] else list(d)
+    return d2
+
+
+def _sequence(r):
+    """several calls in one process on shared objects; returns one case per call, each carrying the
+    earlier calls as its history (replayed before the judged call)"""
+    n = r.choice([3, 4, 6, 9, 14, 30])
+    kind = r.choice(["ints", "ties", "decimal", "floats", "descending", "gauss"])
+    d1, dt = _data(r, kind, n)
+    if r.random() < 0.5 and n > 2:
+        d1[-1] = d1[0]                            # equal first and last elements
+    d2 = _variant(r, d1)
+    dt = _fit_dtype(d1 + d2, dt if dt != "f4" else "f8")
+    cont = r.choice(["ndarray", "ndarray", "list"]) if dt == "f8" else "ndarray"
+    view = r.choice([None, None, "strided"]) if cont == "ndarray" else None
+
+    def par(d, which=None, like=None):
+        which = which or r.choice(["none", "lo", "hi", "both"])
+        lo, hi = (like["min_raw"], like["max_raw"]) if like else _limits(r, d, which)
+        mode = r.choice(["nbin", "binsize"])
+        return {"mode": mode, "spec": _spec(r, d, lo, hi, mode), "min_raw": lo, "max_raw": hi}
+
+    def step(tag, obj, d, p, api, reuse=False):
+        c = _case(r, "seq:%s/%s/x" % (tag, p["mode"]), d, dt, p["mode"], p["spec"], p["min_raw"], p["max_raw"], api=api)
+        c.update(dtype=dt, container=cont, obj=obj)
+        if view:
+            c["view"] = view
+        if reuse:
+            c["reuse"] = True
+        if r.random() < 0.25:
+            c["flip"] = True                      # as an earlier call it runs on the other engine
+        e = expected(c)
+        if e is not None and e["nbin"] > MAXBIN:
+            c["mode"], c["spec"] = "nbin", r.choice([1, 3, 10])
+        return c
+    p1 = par(d1)
+    p2 = par(d1, which=r.choice(["lo", "hi", "both"]))
+    p3 = par(d1, like=p2)                         # the same limits, another bin specification
+    p0 = par(d1, which="none")
+    hapi = lambda: r.choice(["tuple", "more", "norev", "weights"])     # noqa: E731
+    bapi = lambda: r.choice(["binner", "binner", "binner_stats"])      # noqa: E731
+    t = r.choice(["same-object", "binner-reuse", "binner-vs-inplace", "alternate"])
+    if t == "same-object":         # histogram() again on the same array object after in-place changes
+        steps = [step(t, "A", d1, p1, hapi()), step(t, "A", d2, p1, hapi()), step(t, "B", d2, p1, hapi()),
+                 step(t, "A", d1, p2, hapi()), step(t, "A", d1, p1, hapi())]
+    elif t == "binner-reuse":      # one Binner, other limits / bin size / bin count, then the first again
+        steps = [step(t, "A", d1, p1, bapi()), step(t, "A", d1, p2, bapi(), True), step(t, "A", d1, p3, bapi(), True),
+                 step(t, "A", d1, p0, bapi(), True), step(t, "A", d1, p2, bapi(), True), step(t, "A", d1, p1, bapi(), True)]
+    elif t == "binner-vs-inplace":  # the Binner keeps the data it was given; a new one sees the changed array
+        steps = [step(t, "A", d1, p2, bapi()), step(t, "A", d2, p2, hapi()), step(t, "A", d1, p2, bapi(), True),
+                 step(t, "A", d1, p3, bapi(), True), step(t, "A", d2, p2, bapi())]
+    else:                          # two objects of equal length / ends / range in turn, same parameters
+        steps = [step(t, "A", d1, p2, hapi()), step(t, "B", d2, p2, hapi()), step(t, "A", d1, p2, bapi()),
+                 step(t, "B", d2, p2, bapi()), step(t, "B", d2, p3, bapi(), True), step(t, "A", d1, p2, hapi())]
+    out = []
+    for i, c in enumerate(steps):
+        c = dict(c)
+        c["history"] = [dict(h) for h in steps[:i]]
+        out.append(c)
+    return out
+
+
+def _special(r):
+    """option values at exact special points: zero, signed zero, equal bounds, a bin size equal to or far
+    beyond the range, one argument exactly zero while another is not"""
+    cs = []
+    sets = [([0.0, -0.0, 0.0, 1.0, 2.0, -1.0], "f8"), ([0, 0, 0, 0], "i8"), ([0, 3, 3, 6, 6, 6], "i8"),
+            ([-2.0, -0.0, 0.0, 2.0], "f8"), ([1.5, 1.5, 2.5, 0.5], "f8")]
+    for d, dt in sets:
+        xs = sorted(float(v) for v in d)
+        rng = xs[-1] - xs[0]
+        lims = [(0.0, None), (-0.0, None), (None, 0.0), (None, -0.0), (0.0, 0.0), (-0.0, 0.0), (0, xs[-1]), (xs[0], 0),
+                (xs[1], xs[1]), (xs[-1], xs[-1]), (xs[0], xs[0]), (xs[0], xs[-1])]
+        specs = [("nbin", 1), ("nbin", 2), ("binsize", rng or 1.0), ("binsize", (rng or 1.0) * 4), ("binsize", 1e300),
+                 ("binsize", (rng or 1.0) / 4), ("binsize", 1)]
+        for lo, hi in lims:
+            if lo is not None and hi is not None and lo > hi:
+                continue
+            for mode, spec in specs:
+                if r.random() < 0.5:
+                    cs.append(_case(r, "adv:special/%s/x" % mode, d, dt, mode, spec, lo, hi))
+    return cs
 
 
 def _limits(r, data, which):
@@ -370,10 +473,11 @@ def _adversarial(r):
             for api in APIS:
                 for explicit in (False, True):
                     cs.append(mk(dtype="f8", container="ndarray", view=None, api=api, explicit=explicit,
-                                 limform=r.choice([None, "np"]), specform=r.choice([None, "np"])))
+                                 limform=r.choice([None, "np", "np32"]), specform=r.choice([None, "np", "np32"])))
             for wpat in ("ones", "mod3"):
                 for api in ("weights", "binner_w"):
                     cs.append(mk(dtype="f8", container="list", api=api, wpat=wpat, explicit=False))
+    cs += _special(r)
     # inputs the code rejects (the property makes no claim; the model must agree on the error class)
     cs.append(_case(r, "rejected", [], "f8", "nbin", 2, None, None))
     cs.append(_case(r, "rejected", [], "f8", "binsize", 1.0, 0, 1))
@@ -429,7 +533,7 @@ class Hist(Entry):
         cs = []
         if round == 0:
             cs += _adversarial(ctx.rng)
-        cs += _random(ctx, ctx.n(1200, 8000), ctx.n(200, 400))
+        cs += _random(ctx, ctx.n(1000, 7500), ctx.n(200, 400))
         if round == 0:
             cs += _random(ctx, ctx.n(4, 24), ctx.n(1000, 2000))          # a few long arrays
             for n, kind, cut in ctx.n([(4097, "descending", False), (1025, "ascending", True)],
@@ -438,22 +542,29 @@ class Hist(Entry):
                                        (16385, "descending", False), (1023, "ascending", False), (1025, "ascending", True),
                                        (2049, "ascending", False)]):
                 cs.append(_long(ctx.rng, n, kind, cut))
+        for _ in range(ctx.n(45, 200) if round == 0 else ctx.n(15, 40)):
+            cs += _sequence(ctx.rng)
         ctx.rng.shuffle(cs)                       # spread the expensive cases over the Coq shards
         return cs
 
     # --- the real code
-    def _one(self, c, have_chist):
-        import numpy as np
-        import esutil.stat as st
-        import esutil.stat.util as U
-        if have_chist and not getattr(U, "_chist", None):
-            return ("err", "EOther", "compiled extension _chist is not importable")
-        U.have_chist = have_chist
+    # --- one call of the real code; `state` carries the objects shared by the calls of a sequence
+    def _materialize(self, np, c, state):
         vals = [_num(v) for v in c["data"]]
-        dt, cont, api = c["dtype"], c["container"], c["api"]
+        dt, cont = c["dtype"], c["container"]
         npdt = np.dtype(bool) if dt == "bool" else np.dtype(dt)
         if cont in ("scalar", "zerod") and len(vals) != 1:
             cont = "ndarray"
+        name = c.get("obj")
+        old = state["objs"].get(name) if name is not None else None
+        if old is not None and np.ndim(old) == 1 and len(old) == len(vals):
+            # the SAME object again, its contents changed in place
+            if isinstance(old, list) and cont == "list" and dt == "f8":
+                old[:] = vals
+                return old, cont
+            if isinstance(old, np.ndarray) and old.dtype == npdt and old.flags.writeable and cont == "ndarray":
+                old[...] = np.array(vals, dtype=npdt)
+                return old, cont
         if cont == "scalar":
             data = vals[0] if dt == "f8" else npdt.type(vals[0])
         elif cont == "zerod":
@@ -472,19 +583,39 @@ class Hist(Entry):
                 data = data[::-1].copy()[::-1]
             elif view == "readonly":
                 data.setflags(write=False)
-        n = len(vals)
+        if name is not None:
+            state["objs"][name] = data
+        return data, cont
 
-        def npnum(v):
+    def _kwargs(self, np, c, cont):
+        api = c["api"]
+        n = len(c["data"])
+
+        def f32ok(v):
+            with np.errstate(all="ignore"):
+                return float(np.float32(v)) == float(v)
+
+        def npnum(v, form):
+            if form == "np32" and f32ok(v):
+                return np.float32(v)              # exactly representable: the same real number
             return np.int64(v) if isinstance(v, int) else np.float64(v)
+
+        def npint(v, form):
+            if form == "np32":
+                for t, top in ((np.uint8, 255), (np.int16, 32767), (np.int32, 2**31 - 1)):
+                    if 0 <= v <= top:
+                        return t(v)
+            return np.int64(v)
         kw = {}
         bs, nb = _kw(c)
+        sf, lf = c.get("specform"), c.get("limform")
         if bs != "omit":
-            kw["binsize"] = None if bs is None else (npnum(_num(bs)) if c.get("specform") == "np" else _num(bs))
+            kw["binsize"] = None if bs is None else (npnum(_num(bs), sf) if sf else _num(bs))
         if nb is not None:
-            kw["nbin"] = np.int64(nb) if c.get("specform") == "np" else nb
+            kw["nbin"] = npint(nb, sf) if sf else nb
         for key in ("min", "max"):
             if c[key] is not None:
-                kw[key] = npnum(_num(c[key])) if c.get("limform") == "np" else _num(c[key])
+                kw[key] = npnum(_num(c[key]), lf) if lf else _num(c[key])
         if c.get("explicit"):                     # defaults given explicitly
             kw.setdefault("min", None)
             kw.setdefault("max", None)
@@ -497,63 +628,91 @@ class Hist(Entry):
                     kw["weights"] = None
             else:
                 kw.setdefault("binsize", None)
+        elif c.get("mergelast") is not None:      # documented option without influence on binsize/nbin histograms
+            kw["mergelast"] = c["mergelast"]
         wts = None
         if api in ("weights", "binner_w"):
             wts = np.ones(n) if c.get("wpat") != "mod3" else np.array([float(i % 3) for i in range(n)])
             if cont in ("scalar", "zerod"):
                 wts = float(wts[0])
+        return kw, wts
 
-        def f():
-            obs = None
-            if api == "tuple":
-                h, rev = st.histogram(data, rev=True, **kw)
-            elif api == "norev":                  # the counts without reverse indices, rev from a second call
-                h = st.histogram(data, **kw)
-                _, rev = st.histogram(data, rev=True, **kw)
+    def _call(self, np, st, c, state):
+        data, cont = self._materialize(np, c, state)
+        kw, wts = self._kwargs(np, c, cont)
+        api = c["api"]
+        vals = c["data"]
+        n = len(vals)
+        obs = None
+        if api == "tuple":
+            h, rev = st.histogram(data, rev=True, **kw)
+        elif api == "norev":                  # the counts without reverse indices, rev from a second call
+            h = st.histogram(data, **kw)
+            _, rev = st.histogram(data, rev=True, **kw)
+        else:
+            if api == "more":
+                b = st.histogram(data, more=True, **kw)
+            elif api == "weights":
+                b = st.histogram(data, weights=wts, rev=True, **kw)
+            elif api == "binner_y":           # a second variable forces the reverse indices
+                b = st.Binner(data, y=np.arange(n, dtype="f8") if n != 1 or cont not in ("scalar", "zerod") else 0.0)
+                b.dohist(rev=False, calc_stats=False, **kw)
+            elif api == "binner_w":
+                b = st.Binner(data, weights=wts)
+                b.dohist(rev=False, calc_stats=False, **kw)
+            elif api == "binner_twice":       # the same object used before with another specification
+                b = st.Binner(data)
+                try:
+                    med = sorted(_f(v) for v in vals)[n // 2]
+                    b.dohist(nbin=3, min=med, rev=True, calc_stats=False)
+                    b.dohist(binsize=0.75, max=med, rev=False, calc_stats=False)
+                except (ValueError, IndexError, ZeroDivisionError):
+                    pass
+                b.dohist(rev=True, calc_stats=False, **kw)
             else:
-                if api == "more":
-                    b = st.histogram(data, more=True, **kw)
-                elif api == "weights":
-                    b = st.histogram(data, weights=wts, rev=True, **kw)
-                elif api == "binner_y":           # a second variable forces the reverse indices
-                    b = st.Binner(data, y=np.arange(n, dtype="f8") if n != 1 or cont not in ("scalar", "zerod") else 0.0)
-                    b.dohist(rev=False, calc_stats=False, **kw)
-                elif api == "binner_w":
-                    b = st.Binner(data, weights=wts)
-                    b.dohist(rev=False, calc_stats=False, **kw)
-                elif api == "binner_twice":       # the same object used before with another specification
-                    b = st.Binner(data)
-                    try:
-                        med = sorted(float(v) for v in vals)[n // 2]
-                        b.dohist(nbin=3, min=med, rev=True, calc_stats=False)
-                        b.dohist(binsize=0.75, max=med, rev=False, calc_stats=False)
-                    except (ValueError, IndexError, ZeroDivisionError):
-                        pass
-                    b.dohist(rev=True, calc_stats=False, **kw)
+                if c.get("reuse") and state.get("binner") is not None:
+                    b = state["binner"]       # the Binner object of an earlier call of the sequence
                 else:
                     b = st.Binner(data)
-                    b.dohist(rev=True, calc_stats=(api == "binner_stats"), **kw)
-                h, rev = b["hist"], b["rev"]
-                pre = "x" if api == "binner_y" else ""
-                obs = {"binsize": float(b["binsize"]).hex(), "nbin": int(b["nbin"]),
-                       "min": float(b[pre + "min"]).hex(), "max": float(b[pre + "max"]).hex(),
-                       "sort": [int(v) for v in b["sort_index"]], "wsort": [int(v) for v in b["wsort"]]}
-            assert h.dtype == np.int64 and rev.dtype == np.int64 and h.ndim == 1 and rev.ndim == 1
-            if h.size > MAXOUT or rev.size > MAXOUT:     # a (mutated) tree that derives a huge bin count
-                raise OverflowError("hist/rev with %d/%d elements: far beyond what the generated cases ask for"
-                                    % (h.size, rev.size))
-            return {"hist": [int(v) for v in h], "rev": [int(v) for v in rev], "obs": obs}
+                    if c.get("obj") is not None:
+                        state["binner"] = b
+                b.dohist(rev=True, calc_stats=(api == "binner_stats"), **kw)
+            h, rev = b["hist"], b["rev"]
+            pre = "x" if api == "binner_y" else ""
+            obs = {"binsize": float(b["binsize"]).hex(), "nbin": int(b["nbin"]),
+                   "min": float(b[pre + "min"]).hex(), "max": float(b[pre + "max"]).hex(),
+                   "sort": [int(v) for v in b["sort_index"]], "wsort": [int(v) for v in b["wsort"]]}
+        assert h.dtype == np.int64 and rev.dtype == np.int64 and h.ndim == 1 and rev.ndim == 1
+        if h.size > MAXOUT or rev.size > MAXOUT:     # a (mutated) tree that derives a huge bin count
+            raise OverflowError("hist/rev with %d/%d elements: far beyond what the generated cases ask for"
+                                % (h.size, rev.size))
+        return {"hist": [int(v) for v in h], "rev": [int(v) for v in rev], "obs": obs}
+
+    def _one(self, c, have_chist, with_history=True):
+        """the judged call, after the earlier calls of its sequence (c["history"]) were made in this
+        process on the same objects"""
         import signal
+        import numpy as np
+        import esutil.stat as st
+        import esutil.stat.util as U
+        if not getattr(U, "_chist", None):
+            return ("err", "EOther", "compiled extension _chist is not importable")
 
         def _alarm(signum, frame):
             raise TimeoutError("no answer within %d s (the generated cases need milliseconds)" % CASE_TIMEOUT)
+        state = {"objs": {}, "binner": None}
         old = signal.signal(signal.SIGALRM, _alarm)
         signal.alarm(CASE_TIMEOUT)
         try:
             with warnings.catch_warnings():
                 warnings.simplefilter("ignore")
                 with np.errstate(all="ignore"):
-                    out = core.guarded(f)
+                    if with_history:
+                        for step in c.get("history") or []:
+                            U.have_chist = (not have_chist) if step.get("flip") else have_chist
+                            core.guarded(self._call, np, st, step, state)      # judged in its own case
+                    U.have_chist = have_chist
+                    out = core.guarded(self._call, np, st, c, state)
         finally:
             signal.alarm(0)
             signal.signal(signal.SIGALRM, old)
@@ -563,7 +722,13 @@ class Hist(Entry):
         return out
 
     def impl(self, c):
-        return {"c": self._one(c, True), "py": self._one(c, False)}
+        out = {"c": self._one(c, True), "py": self._one(c, False)}
+        if c.get("history"):
+            # the statement does not depend on earlier calls: the same call alone on fresh objects
+            fresh = {"c": self._one(c, True, with_history=False), "py": self._one(c, False, with_history=False)}
+            out["history_dependent"] = (json.dumps(fresh, sort_keys=True, default=str)
+                                        != json.dumps({"c": out["c"], "py": out["py"]}, sort_keys=True, default=str))
+        return out
 
     # --- Coq
     def _input(self, c):
@@ -574,8 +739,11 @@ class Hist(Entry):
 
     def term(self, c, out):
         self.monitors.append((c, "monitor_code %s" % self._input(c)))
-        return "v_hist_api %s %s %s %s %s" % (self._input(c), cobs(out["c"]), cobs(out["py"]),
-                                          carrays(out["c"]), carrays(out["py"]))
+        t = "v_hist_api %s %s %s %s %s" % (self._input(c), cobs(out["c"]), cobs(out["py"]),
+                                           carrays(out["c"]), carrays(out["py"]))
+        if out.get("history_dependent"):          # differs from the same call made alone: not what the model says
+            t = "Z.lor (%s) 1" % t
+        return t
 
     def show(self, c):
         return "show_api %s" % self._input(c)
